@@ -494,7 +494,12 @@ func (sess *session) Create(ctx context.Context, parent Fid, name string,
 		err = openLocked(ctx, &next, mode)
 		if err != nil { // Oops: Create has already succeeded
 						// - so now we have to delete everthing.
-			sess.delRef(ctx, parent, false)
+			// ref is locked by this call, so delRef would deadlock:
+			// unbind the fid here and release the new entry (the
+			// parent entry was consumed by the successful Create).
+			sess.refs.Delete(parent)
+			ent.Clunk(ctx)
+			ref.Ent = nil
 			// Note: ignoring possible multiple errors
 			return fail(err.Error())
 		}
